@@ -1,0 +1,54 @@
+// Verification hooks. Compiled only with the `verif_hooks` cargo feature, which is
+// off by default; with the feature off nothing in this file exists.
+//
+// All state is thread-local so that simulated parties running on different threads
+// cannot influence each other through the hooks.
+
+use std::cell::Cell;
+
+thread_local! {
+    /// Bytes per unit of `memory_size` in `filter_kmers`. `None` keeps the shipped 10^9.
+    static BYTES_PER_UNIT: Cell<Option<usize>> = const { Cell::new(None) };
+    /// Number of bucket passes made by the last `filter_kmers` call on this thread.
+    static LAST_PASSES: Cell<usize> = const { Cell::new(0) };
+    /// Total number of bucket passes made by `filter_kmers` calls on this thread.
+    static TOTAL_PASSES: Cell<usize> = const { Cell::new(0) };
+    /// When set, `DnaString::from_acgt_bytes` behaves as if AVX2 was not detected.
+    static FORCE_SCALAR: Cell<bool> = const { Cell::new(false) };
+}
+
+/// Override the number of bytes one unit of `memory_size` stands for (shipped value: 10^9).
+pub fn set_bytes_per_unit(v: Option<usize>) {
+    BYTES_PER_UNIT.with(|c| c.set(v));
+}
+
+pub(crate) fn max_mem(memory_size: usize, shipped: usize) -> usize {
+    match BYTES_PER_UNIT.with(|c| c.get()) {
+        Some(unit) => memory_size * unit,
+        None => shipped,
+    }
+}
+
+pub(crate) fn record_passes(n: usize) {
+    LAST_PASSES.with(|c| c.set(n));
+    TOTAL_PASSES.with(|c| c.set(c.get() + n));
+}
+
+/// Number of bucket passes made by the last `filter_kmers` call on this thread.
+pub fn last_passes() -> usize {
+    LAST_PASSES.with(|c| c.get())
+}
+
+/// Total number of bucket passes made by `filter_kmers` calls on this thread.
+pub fn total_passes() -> usize {
+    TOTAL_PASSES.with(|c| c.get())
+}
+
+/// Force (or stop forcing) the scalar path of `DnaString::from_acgt_bytes` on this thread.
+pub fn set_force_scalar(v: bool) {
+    FORCE_SCALAR.with(|c| c.set(v));
+}
+
+pub(crate) fn force_scalar() -> bool {
+    FORCE_SCALAR.with(|c| c.get())
+}
